@@ -44,7 +44,12 @@ class MiniPCNSMC(SMCSampler):
         self.sampler_kwargs.setdefault("target_acceptance_rate", 0.234)
         self.sampler_kwargs.setdefault("step_fn", "tpcn")
         self.backend_str = determine_backend_name(xp=self.xp)
-        self.rng = rng or ArrayRNG(backend=self.backend_str)
+        # A generator given to the constructor (e.g. via
+        # Aspire.sample_posterior(rng=...)) must not be replaced
+        if rng is not None:
+            self.rng = rng
+        elif not getattr(self, "_rng_provided", False):
+            self.rng = ArrayRNG(backend=self.backend_str)
         return super().sample(
             n_samples,
             n_steps=n_steps,
